@@ -400,7 +400,20 @@ def rule_driver_loops(ctx):
                 if not per_loop:
                     r.check(not loops, b.id + "|solve", "solve-in-loop", "the complete solver's SAT call is not in a loop", "the complete solver calls the SAT solver inside a loop", s.loc())
                 else:
-                    r.check(len(loops) == 1, b.id + "|solve", "loop-depth=%d" % len(loops), "SAT call inside the per-component loop only", loc=s.loc())
+                    # loops around the call, through the private helpers of the solver that hold it
+                    def depth_of(fn, site_depth, seen=()):
+                        cs = [c for c in prog.callers_of(fn) if c.body is not fn and prog.enclosing_fn(c.body).impl and prog.enclosing_fn(c.body).impl.get("self_adt") == path and not fn.impl.get("trait")]
+                        if not cs or fn.id in seen:
+                            return {site_depth}
+                        out = set()
+                        for c in cs:
+                            cf = prog.enclosing_fn(c.body)
+                            extra = len(c.body.in_loop(c.bb)) + (1 if c.body.kind == "closure" else 0)
+                            out |= depth_of(cf, site_depth + extra, seen + (fn.id,)) if cf is not c.body or True else set()
+                        return out
+
+                    depths = depth_of(b, len(loops))
+                    r.check(depths == {1}, b.id + "|solve", "loop-depth=%s" % sorted(depths), "SAT call inside the per-component loop only", loc=s.loc())
                     if loops:
                         head = loops[0]
                         twice = any(x.bb != s.bb and b.reaches(s.bb, x.bb, avoid={head}) for x in solves)
